@@ -25,6 +25,16 @@ Theorem C17_and_success_fixed_by_all :
 Proof. exact and_success_fixed_by_all. Qed.
 Print Assumptions C17_and_success_fixed_by_all.
 
+(* the same for the concrete instance: vectors of rationals with Python's list equality, and the modelled
+   randomisation [(x_i + randint(-1,1)) * random() for x_i in x] reading ANY stream of draws *)
+Theorem C17_and_num_Q_success_fixed_by_all :
+  forall (zu : nat -> Z * Q) (cs : list (member (list Q))) (maxiter : nat) (x0 : list Q) (s : nat) (r : list Q) (s' : nat),
+  (forall c, In c cs -> proper (list Q) (list_eqb NumQ) c /\ idem (list Q) (list_eqb NumQ) c) ->
+  and_num NumQ zu cs maxiter x0 s = (Success r, s') ->
+  forall c, In c cs -> fixes (list Q) (list_eqb NumQ) c r.
+Proof. exact and_num_Q_success_fixed_by_all. Qed.
+Print Assumptions C17_and_num_Q_success_fixed_by_all.
+
 (* ---- or_: success only on a vector that SOME member leaves unchanged (no idempotence needed) *)
 Theorem C17_or_success_fixed_by_some :
   forall (V : Type) (veq : V -> V -> bool) (St : Type) (pick : St -> Z * St),
@@ -197,6 +207,14 @@ Section Examples.
   Proof.
     split; [vm_compute; reflexivity|]. intros [v [H1 H2]]. inversion H1; subst. discriminate.
   Qed.
+
+  (* the input on which the unrepaired and_ claimed success (DESIGN.md section 7, F4): max(.,1) against min(.,0)
+     from [1/2] with randint = -1; the model of the current code gives up through the failure path *)
+  Example C17_F4_input_now_fails :
+    exists r s', and_num NumQ (fun _ => ((-1)%Z, (1#2)%Q))
+                   [(fun x => Val (map (fun v => nmax NumQ v 1%Q) x)); (fun x => Val (map (fun v => nmin NumQ v 0%Q) x))]
+                   100 [(1#2)%Q] 0 = (Failure r, s').
+  Proof. eexists; eexists. vm_compute. reflexivity. Qed.
 
   (* or_ / not_ reach success; penalties: hypotheses of the zero-set theorems are met *)
   Example C17_or_success : or_ nat Nat.eqb nat (fun s => (1%Z, S s)) [c1; c2] 100 0 0 = (Success 0, 0).
